@@ -114,6 +114,7 @@ Admit(kind) ==
     [] kind = "lamb"    -> {"", "s", "ss"}                     \* before =>
     [] kind = "lama"    -> {"", "s", "n", "c", "sn"}           \* after =>
     [] kind = "lamp"    -> {"", "s", "n"}                      \* inside a lambda parameter list
+    [] kind = "lamq"    -> {"", "s", "ss"}                     \* between a parameter name and its ? , between ... and the name
     [] kind = "asg"     -> {"", "s", "ss"}                     \* around = of an assignment
     [] kind = "fixed"   -> {"s"}                               \* a mandatory single space (not varied)
     [] kind = ""        -> {""}                                \* no gap (end of text)
